@@ -15,6 +15,7 @@ registry.Default.Register(aliases)
 t, err := route.NewTable(tableBuffer)
 if err != nil { continue }                              -- the old table keeps serving
 route.SetTable(t); lastTable = nextTable
+once.Do(func() { close(first) })                        -- main() waits for `first` before it starts the listeners
 ```
 
 The property's second sentence ends here: a route update "is not prevented or delayed" when the iteration that
@@ -31,6 +32,8 @@ structure WState where
   lastTable : Str := []
   table : Table := []
   registered : List (List Str) := []
+  /-- `first` has been closed: `main` goes on to start the listeners (fabio serves) -/
+  started : Bool := false
 deriving Repr
 
 inductive WEv where
@@ -61,7 +64,7 @@ def step (env : Env) (pf : ParseFloat) (s : WState) (e : WEv) : WState :=
   let s2 := { s1 with registered := s1.registered ++ [registerArg pf next] }
   match loadTable env pf next with
   | .error _ => s2
-  | .ok t => { s2 with table := t, lastTable := next }
+  | .ok t => { s2 with table := t, lastTable := next, started := true }
 
 def run (env : Env) (pf : ParseFloat) (s : WState) (es : List WEv) : WState := es.foldl (step env pf) s
 
